@@ -34,11 +34,12 @@ struct EncParams {
 };
 
 inline Result encrypt(const bytes &P, const EncParams &ep, int outbuf = -1 /* -1 default, 0 unbuffered, n>0 size */,
-                      bool record_payload = false, size_t fail_read_call = 0) {
+                      bool record_payload = false, size_t fail_read_call = 0, size_t fail_write_call = 0) {
   Result r;
   MemFile in, out;
   in.data = P;
   in.fail_read_call = fail_read_call;
+  out.fail_write_call = fail_write_call;
   out.record_payload = record_payload;
   FILE *fi = in.open("r+");
   FILE *fo = out.open("w+", outbuf == 0, outbuf > 0 ? (size_t)outbuf : 0);
@@ -66,11 +67,12 @@ inline Result encrypt(const bytes &P, const EncParams &ep, int outbuf = -1 /* -1
 }
 
 inline Result decrypt_or_verify(bool dec, const bytes &F, const uint8_t key_[16], int T, bool echo = false, int outbuf = -1,
-                                size_t fail_read_call = 0) {
+                                size_t fail_read_call = 0, size_t fail_write_call = 0) {
   Result r;
   MemFile in, out;
   in.data = F;
   in.fail_read_call = fail_read_call;
+  out.fail_write_call = fail_write_call;
   FILE *fi = in.open("r+");
   FILE *fo = out.open("w+", outbuf == 0, outbuf > 0 ? (size_t)outbuf : 0);
   uint8_t key[16];
